@@ -1,2 +1,10 @@
 import Plonk.Props.C09
-#print axioms Plonk.Props.C09.placeholder_bounds
+#print axioms Plonk.Props.C09.rangeCheck_extends
+#print axioms Plonk.Props.C09.rangeCheck_counts
+#print axioms Plonk.Props.C09.rangeCheck_sound
+#print axioms Plonk.Props.C09.rangeCheck_sound_zero
+#print axioms Plonk.Props.C09.rangeCheck_complete
+#print axioms Plonk.Props.C09.range_exact
+#print axioms Plonk.Props.C09.range_exact_pairs
+#print axioms Plonk.Props.C09.entry_points_agree
+#print axioms Plonk.Props.C09.range_255_256_trivial
